@@ -1,5 +1,6 @@
 //! Handles directory traversal and file processing.
 
+use std::cmp::Ordering;
 use std::collections::{HashMap, HashSet, VecDeque};
 use std::fs;
 #[cfg(unix)]
@@ -2011,22 +2012,55 @@ impl<'a> Searcher<'a> {
                 }
             }
         } else if let Some(ref op) = expr.op {
+            let is_literal = |e: &Expr| {
+                e.val.is_some() && e.field.is_none() && e.function.is_none() && e.left.is_none()
+            };
+            let mut left_expr = expr.left.as_ref().unwrap();
+            let mut right_expr = expr.right.as_ref().unwrap();
+            let mut op = op.clone();
+            // `1k < size` is `size > 1k`: the typed operand decides how the two are compared
+            if is_literal(left_expr) && !is_literal(right_expr) {
+                let mirrored = match op {
+                    Op::Eq | Op::Ne | Op::Eeq | Op::Ene => Some(op.clone()),
+                    Op::Gt => Some(Op::Lt),
+                    Op::Gte => Some(Op::Lte),
+                    Op::Lt => Some(Op::Gt),
+                    Op::Lte => Some(Op::Gte),
+                    _ => None,
+                };
+                if let Some(mirrored) = mirrored {
+                    std::mem::swap(&mut left_expr, &mut right_expr);
+                    op = mirrored;
+                }
+            }
+            let op = &op;
+            // a wildcard in a literal or computed text makes `=` a pattern match; the value of a plain
+            // column (`dir = name`) is compared as it is
+            let right_is_literal =
+                !(right_expr.field.is_some() && right_expr.function.is_none() && right_expr.left.is_none());
+
             let field_value = self.get_column_expr_value(
                 Some(entry),
                 file_info,
                 &mut HashMap::new(),
                 None,
-                expr.left.as_ref().unwrap(),
+                left_expr,
             );
             let value = self.get_column_expr_value(
                 Some(entry),
                 file_info,
                 &mut HashMap::new(),
                 None,
-                expr.right.as_ref().unwrap(),
+                right_expr,
             );
 
-            result = match field_value.get_type() {
+            // pattern operators look at the text of any value
+            let compared_type = match op {
+                Op::Rx | Op::NotRx | Op::Like | Op::NotLike => VariantType::String,
+                _ => field_value.get_type().clone(),
+            };
+
+            result = match compared_type {
                 VariantType::String => {
                     let val = value.to_string();
                     // the same pattern text means different things to different operators
@@ -2034,7 +2068,7 @@ impl<'a> Searcher<'a> {
                     let rx_key = format!("rx:{}", val);
                     let like_key = format!("like:{}", val);
                     match op {
-                        Op::Eq => match is_glob(&val) {
+                        Op::Eq => match right_is_literal && is_glob(&val) {
                             true => {
                                 let regex = self.regex_cache.get(&glob_key);
                                 match regex {
@@ -2058,7 +2092,7 @@ impl<'a> Searcher<'a> {
                             }
                             false => val.eq(&field_value.to_string()),
                         },
-                        Op::Ne => match is_glob(&val) {
+                        Op::Ne => match right_is_literal && is_glob(&val) {
                             true => {
                                 let regex = self.regex_cache.get(&glob_key);
                                 match regex {
@@ -2158,46 +2192,37 @@ impl<'a> Searcher<'a> {
                         }
                         Op::Eeq => val.eq(&field_value.to_string()),
                         Op::Ene => val.ne(&field_value.to_string()),
-                        // two numeric literals, e.g. `3 > 2`
+                        // two numbers as numbers (`3 > 2`), any other text in its natural order
                         Op::Gt | Op::Gte | Op::Lt | Op::Lte => {
-                            match (field_value.to_string().parse::<f64>(), val.parse::<f64>()) {
-                                (Ok(left), Ok(right)) => match op {
-                                    Op::Gt => left > right,
-                                    Op::Gte => left >= right,
-                                    Op::Lt => left < right,
-                                    _ => left <= right,
-                                },
-                                _ => false,
+                            let ordering = match (field_value.to_string().parse::<f64>(), val.parse::<f64>()) {
+                                (Ok(left), Ok(right)) if !left.is_nan() && !right.is_nan() => {
+                                    left.partial_cmp(&right).unwrap_or(Ordering::Equal)
+                                }
+                                _ => field_value.to_string().cmp(&val),
+                            };
+                            match op {
+                                Op::Gt => ordering == Ordering::Greater,
+                                Op::Gte => ordering != Ordering::Less,
+                                Op::Lt => ordering == Ordering::Less,
+                                _ => ordering != Ordering::Greater,
                             }
                         }
                         _ => false,
                     }
                 }
                 VariantType::Int => {
-                    let val = value.to_int();
                     let int_value = field_value.to_int();
-                    match op {
-                        Op::Eq | Op::Eeq => int_value == val,
-                        Op::Ne | Op::Ene => int_value != val,
-                        Op::Gt => int_value > val,
-                        Op::Gte => int_value >= val,
-                        Op::Lt => int_value < val,
-                        Op::Lte => int_value <= val,
-                        _ => false,
-                    }
+                    // the other operand need not be a whole number that fits: `size < 1.5`, `size = 5 / 2`,
+                    // `size < 0.1m`, `size < 18446744073709551615`
+                    let ordering = match Self::whole_number(&value) {
+                        Some(val) => int_value.cmp(&val),
+                        None => Self::compare_floats(int_value as f64, Self::real_number(&value)),
+                    };
+                    Self::ordering_satisfies(op, ordering)
                 }
                 VariantType::Float => {
-                    let val = value.to_float();
-                    let float_value = field_value.to_float();
-                    match op {
-                        Op::Eq | Op::Eeq => float_value == val,
-                        Op::Ne | Op::Ene => float_value != val,
-                        Op::Gt => float_value > val,
-                        Op::Gte => float_value >= val,
-                        Op::Lt => float_value < val,
-                        Op::Lte => float_value <= val,
-                        _ => false,
-                    }
+                    let ordering = Self::compare_floats(field_value.to_float(), Self::real_number(&value));
+                    Self::ordering_satisfies(op, ordering)
                 }
                 VariantType::Bool => {
                     let val = value.to_bool();
@@ -2232,6 +2257,62 @@ impl<'a> Searcher<'a> {
         }
 
         result
+    }
+
+    /// The value as a whole number, if it is one and fits.
+    fn whole_number(value: &Variant) -> Option<i64> {
+        match value.get_type() {
+            &VariantType::Int => Some(value.to_int()),
+            &VariantType::Float => None,
+            _ => {
+                let text = value.to_string();
+                if let Ok(number) = text.parse::<i64>() {
+                    return Some(number);
+                }
+                match crate::util::parse_filesize_exact(&text) {
+                    Some((numerator, denominator)) if numerator % denominator == 0 => {
+                        i64::try_from(numerator / denominator).ok()
+                    }
+                    Some(_) => None,
+                    // what is no number at all counts as before
+                    None if text.parse::<f64>().is_err() => Some(value.to_int()),
+                    None => None,
+                }
+            }
+        }
+    }
+
+    fn real_number(value: &Variant) -> f64 {
+        match value.get_type() {
+            &VariantType::Int | &VariantType::Float => value.to_float(),
+            _ => {
+                let text = value.to_string();
+                match crate::util::parse_filesize_exact(&text) {
+                    Some((numerator, denominator)) => numerator as f64 / denominator as f64,
+                    None => value.to_float(),
+                }
+            }
+        }
+    }
+
+    /// A total order: a comparison and its negation never both fail (NaN sorts after every number).
+    fn compare_floats(left: f64, right: f64) -> Ordering {
+        match left.partial_cmp(&right) {
+            Some(ordering) => ordering,
+            None => left.is_nan().cmp(&right.is_nan()),
+        }
+    }
+
+    fn ordering_satisfies(op: &Op, ordering: Ordering) -> bool {
+        match op {
+            Op::Eq | Op::Eeq => ordering == Ordering::Equal,
+            Op::Ne | Op::Ene => ordering != Ordering::Equal,
+            Op::Gt => ordering == Ordering::Greater,
+            Op::Gte => ordering != Ordering::Less,
+            Op::Lt => ordering == Ordering::Less,
+            Op::Lte => ordering != Ordering::Greater,
+            _ => false,
+        }
     }
 
     fn is_zip_archive(&self, file_name: &str) -> bool {
